@@ -4,6 +4,7 @@ well separated time constants -> TR-NNLS (non-negativity, area = polarisation re
 import multiprocessing as mp
 import sys
 
+import itertools
 import numpy as np
 
 sys.path.insert(0, __file__.rsplit("/bounded/", 1)[0])
@@ -410,6 +411,79 @@ def run_mrq_full(job):
     return [(ckey, True, {"cdc": lad["cdc"], "fitted_tau": list(map(float, ftau)), "fitted_R": list(map(float, fR)), "total_area_err": etot})], fails, metrics
 
 
+VIEWS_SRC = '''import itertools
+import numpy as np
+from pyimpspec.analysis.drt.lm import LMResult
+from pyimpspec.analysis.drt.peak_analysis import DRTPeak, DRTPeaks
+
+
+def lm_result(taus, gammas):
+    f = np.logspace(3, 0, 4)
+    Z = np.ones(4, dtype=complex)
+    return LMResult(time_constants=np.array(taus, dtype=float), gammas=np.array(gammas, dtype=float), frequencies=f, impedances=Z, residuals=Z * 0, pseudo_chisqr=0.0,
+                    singular_values=np.ones(3))
+
+
+def lm_pairs_expected(taus, gammas, threshold):
+    rc = [(t, g) for t, g in zip(taus, gammas) if g >= 0]
+    rl = [(t, abs(g)) for t, g in zip(taus, gammas) if g < 0]
+    out = []
+    for part in (rc, rl):
+        top = max((g for _, g in part), default=0.0)
+        out.append(sorted((t, g) for t, g in part if top > 0 and g / top > threshold and g > 0))
+    return out
+
+
+def peaks_object():
+    ps = [DRTPeak(position=0.2 + 0.3 * k, height=0.5 + 0.2 * k, alpha=0.0, sigma=0.05, x_offset=-3.0, x_scale=4.0, y_offset=0.0, y_scale=100.0 * (k + 1)) for k in range(3)]
+    return ps, DRTPeaks(time_constants=np.logspace(-3, 1, 200), peaks=ps, suffix="")
+'''
+
+
+def run_views(job):
+    """result VIEWS on hand-made result objects (no fitting): LMResult.get_peaks keeps every (tau, gamma) pair together for every
+    threshold; each row of DRTPeaks.to_peaks_dataframe holds position, height and area of ONE peak, for every subset of peaks"""
+    env = {}
+    exec(VIEWS_SRC, env)
+    cases, fails = [], []
+    lm_cases = [([1e-3, 1.0, 1e-1, 10.0, 1e-2], [5.0, 1.0, 3.0, -2.0, -4.0]), ([3.0, 1e-2, 0.5], [0.2, 4.0, 1.0]), ([1e-1, 2.0, 1e-3, 30.0], [2.0, -1.0, 0.1, -3.0])]
+    for (taus, gammas), thr in itertools.product(lm_cases, (0.0, 0.1, 0.3, 0.6)):
+        key = ("views", "lm-get_peaks", tuple(taus), thr)
+        cases.append((key, True, None))
+        want = env["lm_pairs_expected"](taus, gammas, thr)
+        repro = VIEWS_SRC + f"\nr = lm_result({taus!r}, {gammas!r})\nt1, g1, t2, g2 = r.get_peaks(threshold={thr!r})\ngot = [sorted(zip(map(float, t1), map(float, g1))), sorted(zip(map(float, t2), map(float, g2)))]\nassert got == lm_pairs_expected({taus!r}, {gammas!r}, {thr!r}), got\n"
+        try:
+            t1, g1, t2, g2 = env["lm_result"](taus, gammas).get_peaks(threshold=thr)
+            got = [sorted(zip(map(float, t1), map(float, g1))), sorted(zip(map(float, t2), map(float, g2)))]
+        except Exception as ex:  # noqa
+            got = f"{type(ex).__name__}: {ex}"
+        if got != want:
+            fails.append(("views:LMResult.get_peaks:pairs-differ", "LMResult.get_peaks", f"time constants {taus}, gammas {gammas}, threshold {thr}: get_peaks gives the (tau, gamma) pairs {got}, the result holds {want}", repro))
+    ps, peaks = env["peaks_object"]()
+    rows_all = None
+    for k in range(0, 4):
+        for sub in itertools.combinations(range(3), k):
+            key = ("views", "peaks-dataframe", sub)
+            cases.append((key, True, None))
+            idx = list(sub) if sub else None
+            repro = VIEWS_SRC + f"\nps, peaks = peaks_object()\nfull = peaks.to_peaks_dataframe()\nrows = [tuple(map(float, r)) for r in full.to_numpy()]\nsub = peaks.to_peaks_dataframe(peak_indices={idx!r})\nwant = sorted(rows[i] for i in {(list(sub) if sub else [0, 1, 2])!r})\nassert sorted(tuple(map(float, r)) for r in sub.to_numpy()) == want, (sub, want)\nassert all(abs(rows[i][2] - float(peaks.get_peak_area(i))) < 1e-9 for i in range(3))\n"
+            try:
+                if rows_all is None:
+                    rows_all = [tuple(map(float, r)) for r in peaks.to_peaks_dataframe().to_numpy()]
+                    areas = [float(peaks.get_peak_area(i)) for i in range(3)]
+                    pos = [10 ** (p.position * p.x_scale + p.x_offset) for p in ps]
+                    if any(abs(rows_all[i][2] - areas[i]) > 1e-9 or abs(rows_all[i][0] / pos[i] - 1) > 1e-12 for i in range(3)):
+                        fails.append(("views:DRTPeaks.to_peaks_dataframe:row-mixes-peaks", "DRTPeaks.to_peaks_dataframe", f"full table {rows_all}: position / area of row i are not those of peak i ({pos}, {areas})", repro))
+                got = sorted(tuple(map(float, r)) for r in peaks.to_peaks_dataframe(peak_indices=idx).to_numpy())
+            except Exception as ex:  # noqa
+                got = f"{type(ex).__name__}: {ex}"
+            want = sorted(rows_all[i] for i in (sub if sub else range(3))) if rows_all else None
+            if got != want:
+                fails.append(("views:DRTPeaks.to_peaks_dataframe:row-mixes-peaks", "DRTPeaks.to_peaks_dataframe", f"peak_indices={idx}: rows {got}, but the rows of those peaks in the full table are {want}", repro))
+    return cases, fails, {}
+
+
+
 # ------------------------------------------------------------------------------------------------------------- main
 def dispatch(item):
     fn, job = item
@@ -459,7 +533,7 @@ def main(a):
                     jobs.append(("run_mrq_analytic", (seed(), n, fine, r0)))
     full = [(1, 10), (2, 10)] if quick else [(n, p) for n in (1, 2, 3) for p in (5, 10, 20)] * 2
     full_jobs = [("run_mrq_full", (seed(), n, ppd, float(rng.choice(scales)))) for n, ppd in full]
-    jobs = full_jobs + jobs           # the slow ones first
+    jobs = full_jobs + jobs + [("run_views", None)]           # the slow ones first
 
     res = Result("C13", f"{len([j for j in jobs if j[0] == 'run_trnnls'])} ladders R0 + 1..4 (RC)|(RQ, n 0.9..0.99), time constants >= {MARGIN} decades inside the window and >= {SEP} decades apart, "
                  f"R_k within one decade, scale {scales[0]:g}..{scales[-1]:g}, {ppds} points/decade over 7 or 9 decades x tr-nnls {{real, imaginary}} x lambda {{1e-3, auto -1, auto -2}}; "
